@@ -1,9 +1,9 @@
 SPECIFICATION Spec
 CONSTANTS
   NSym = 4
-  MinLen = 1
+  MinLen = 5
   MaxLen = 6
-  Mode = "prefix"
+  Mode = "edit"
   Stems = "all"
 INVARIANTS Found SharesGram ScoreSafe
 CHECK_DEADLOCK FALSE
